@@ -1,5 +1,5 @@
 """What is claimed per property (feeds MANIFEST.json via tools/mkmanifest.py)."""
-HOOK_COMMITS = ["56a64ef", "eb21cc7", "7f35f13"]
+HOOK_COMMITS = ["56a64ef", "eb21cc7", "7f35f13", "aa6222d"]
 ENGINES = [
     {"name": "kreal", "path": "/verif/engines/kreal",
      "serves_properties": ["C01", "C02", "C05", "C06", "C07", "C09", "C10", "C12", "C13", "C14", "C15", "C16", "C17", "C19"],
@@ -44,7 +44,7 @@ CLAIMS = {
         "note": TRUST + 'Outside (probed, undecided): Lehmer gcd and gcd_ext on multi-word operands, integer square roots beyond u16/u32 primitives, Newton nth_root with symbolic radicands, ilog with other bases, the std (libm) log2 estimator, FBig/RBig log2_bounds.',
     },
     "C13": {
-        "text": BMC + 'Rings with literal moduli (single word with and without normalisation shift, double word): + - neg dbl (and * sqr pow where the calibration showed them decidable) on elements +-p (p < 2^12 or 2^6): the residue equals the integer result reduced mod m; reduce() of every |a| < 2^32 for small moduli; mixing two ConstDivisor instances panics.',
+        "text": BMC + 'Rings with literal moduli (single word with and without normalisation shift, double word): + - neg dbl (and * sqr pow where the calibration showed them decidable) on elements +-p (p < 2^12 or 2^6): the residue equals the integer result reduced mod m; the multi-word ring kernels (add, sub, neg, dbl, swapped sub) for EVERY pair of residues below three literal 3-word moduli (with and without normalisation shift), through a cfg(dashu_verif) entry to the kernels; reduce() of every |a| < 2^32 for small moduli; mixing two ConstDivisor instances panics.',
         "note": TRUST + 'Outside (probed, undecided): 3-word moduli, inv(), multiplication in double-word rings, symbolic moduli, multi-word exponents.',
     },
     "C14": {
